@@ -462,6 +462,23 @@ class World:
         self.emit(op, {"err": err_name(err)})
         return h, err
 
+    def provn(self, c):
+        """printer channel: the exact PROV-N text"""
+        try:
+            out = {"text": self.conts[c].get_provn()}
+        except Exception as e:  # noqa
+            out = {"text": None, "err": err_name(e)}
+        self.emit({"op": "provn", "c": c}, out)
+        return out["text"]
+
+    def provn_rec(self, r):
+        try:
+            out = {"text": self.recs[r].get_provn()}
+        except Exception as e:  # noqa
+            out = {"text": None, "err": err_name(e)}
+        self.emit({"op": "provn_rec", "r": r}, out)
+        return out["text"]
+
     def obs(self, c):
         o = proto.canon_cont(self.conts[c])
         self.emit({"op": "obs", "c": c}, o)
@@ -548,6 +565,11 @@ def diff_outputs(ops, impl_outs, model_outs):
                 continue          # outside the model's envelope (counted by the caller)
             from . import jsontree
             b = {"tree": jsontree.canon_tagged(b["tree"])}
+        if a != b and ops[i]["op"] in ("provn", "provn_rec") and a.get("text") is not None and b.get("text") is not None:
+            la, lb = a["text"].split("\n"), b["text"].split("\n")
+            if len(la) == len(lb) and all(sorted(x) == sorted(y) for x, y in zip(la, lb)):
+                DIVERGENCES["attribute-order-in-provn"] = DIVERGENCES.get("attribute-order-in-provn", 0) + 1
+                continue          # same characters line by line: only the set iteration order of attribute values differs
         if a != b:
             if ops[i]["op"] in ("obs", "obs_rec") and uri_projection(a) == uri_projection(b):
                 DIVERGENCES["prefix-level"] += 1
